@@ -13,6 +13,17 @@ W3_COMPONENTS = {
 }
 
 PROPS = {
+    "C19": {
+        "level": "fault_enumeration",
+        "quick_runs": 1500, "quick_budget_s": 90,
+        "thorough_budget_s": 600,
+        "rule": "C19 scenario: cache plugin filled with 0..300 PRNG answers at several virtual instants, dumped (Close->simdisk file or GET /dump), restarted at a later instant (dump_file or POST /load_dump) and compared answer-by-answer with a never-restarted twin; then every prefix length of the dump (dumps <= 1500 bytes: exhaustive; larger: both ends + 150 sampled cut points) is loaded into an empty instance; disk-full cuts through the real dumpCache path; byte flips and arbitrary inputs. Counts of cut points are in config_distribution/samples.",
+        "components": W3_COMPONENTS,
+        "cfg_dist_keys": ["entries", "via", "enospc", "prefix_sweep_exhaustive", "whole_seconds", "lazy"],
+        "cfg_sum_keys": ["prefixes_tried", "dump_bytes"],
+        "level_text": "Crash points of the dump stream are enumerated per generated dump (every truncation point for small dumps, boundary-biased samples for multi-block dumps) inside seeded simulated runs with a virtual clock; faithful reload is a differential check against a never-restarted twin. Evidence, not proof.",
+        "technique": "deterministic simulation with a simulated disk: enumeration of truncation points (crash points) per dump, seeded search over cache contents/instants, differential oracle against a never-restarted twin",
+    },
     "C11": {
         "level": "exploration",
         "race": True,
